@@ -864,6 +864,12 @@ def sum_axioms(terms, rounds=1, done=None, signs=True, pairs=True):
             # fanning out; a needed comparison over provably-but-not-syntactically equal ranges is lost: incomplete, sound)
             if not (z3.simplify(a.arg(0)).eq(z3.simplify(c.arg(0))) and z3.simplify(a.arg(1)).eq(z3.simplify(c.arg(1)))):
                 continue
+            # ... and only applications whose parameter sets are comparable (one contained in the other): sums
+            # instantiated at different skolem indices are never needed equal
+            pa = {k_.get_id() for x in a.children()[2:] for k_ in free_consts(x)}
+            pc = {k_.get_id() for x in c.children()[2:] for k_ in free_consts(x)}
+            if not (pa <= pc or pc <= pa):
+                continue
             da = SumDef.registry[a.decl().get_id()]
             dc = SumDef.registry[c.decl().get_id()]
             sk = Fresh.int("sk")
